@@ -355,6 +355,17 @@ ElemForEach::sortChildren(
     
     NodeSorter* sorter = executionContext.getNodeSorter();
 
+    // The execution context has one sorter.  A sort key can start
+    // another sort while that one is in use (through a variable that
+    // is evaluated on first use, and contains a sorted loop), so use
+    // a sorter of our own when that's the case.
+    NodeSorter  theLocalSorter(executionContext.getMemoryManager());
+
+    if (sorter->getSortKeys().empty() == false)
+    {
+        sorter = &theLocalSorter;
+    }
+
     NodeSortKeyVectorType&  keys = sorter->getSortKeys();
     assert(keys.empty() == true);
 
